@@ -318,6 +318,10 @@ where
                 });
             };
             *slot = value;
+            // Like the stored branch below: an updated slot is no longer deleted.
+            if !self.holes().is_empty() {
+                self.mut_holes().remove(&index);
+            }
             return Ok(());
         }
 
